@@ -123,10 +123,17 @@ def _expand_flags(e, func, locals_, depth):
         def visit_Name(self, node):
             if depth < 2 and isinstance(node.ctx, ast.Load) and node.id in locals_:
                 d = _single_def(func, node.id)
-                if d is not None and (_is_boolean_expr(d) or _is_set_expr(d)):
+                if d is not None and (_is_boolean_expr(d) or _is_set_expr(d) or _is_index_abbreviation(d)):
                     return _expand_flags(clone(d), func, locals_, depth + 1)
             return node
     return T().visit(e)
+
+
+def _is_index_abbreviation(d) -> bool:
+    """`n = H.shape[0]`, `last = H.shape[0] - 1`: a name for a dimension / index computed by attribute access and integer arithmetic."""
+    has_shape = any(isinstance(n, ast.Attribute) and n.attr == "shape" for n in ast.walk(d))
+    return has_shape and all(isinstance(n, (ast.Attribute, ast.Subscript, ast.BinOp, ast.Constant, ast.Name, ast.operator, ast.expr_context,
+                                            ast.UnaryOp, ast.unaryop)) for n in ast.walk(d))
 
 
 def _is_set_expr(d) -> bool:
@@ -810,7 +817,10 @@ def rule_total_callbacks(rep: Report, repo: Repo):
     for d in nested_defs(bd):
         if d.name in ("diag", "offdiag"):
             funcs.append((MOD, f"block_diagonalize::{d.name}@L{d.lineno}", d))
-    rep.floor(R, "callback functions", len(funcs), 18)
+    # the floor counts callback ROLES (a role defined several times, like the diag / offdiag pairs, counts once), so that merging or
+    # splitting definitions of one role does not look like lost coverage
+    roles = {(mod, q.split("@L")[0]) for mod, q, _f in funcs}
+    rep.floor(R, "callback roles", len(roles), 14)
     for mod, q, f in funcs:
         g = CFG(f)
         bad = []
